@@ -272,6 +272,28 @@ func checkC05(c *Ctx) {
 		}
 	}
 
+	// C05.9 sibling agreement of the timeout rules: a quorum certificate carried by a sync info can advance the view
+	// (otherwise a certified proposal never moves a replica on and every view has to time out)
+	tr := p.Iface("protocol/synchronizer", "TimeoutRuler")
+	for _, t := range p.Implementations(tr, false) {
+		fn := p.MethodOf(t, "VerifySyncInfo")
+		if fn == nil {
+			continue
+		}
+		fv := NewFlow(p, fn)
+		uses := false
+		for _, e := range successExits(fv, 3) {
+			for _, lf := range leaves(fv, retValue(e.Ret, 1), e.Ret) {
+				if fv.K.Key(lf.Val) == kQCView+"(hs.SyncInfo).QC(p1)#0)" {
+					uses = true
+				}
+			}
+		}
+		c.Check(uses, "C05.9", t.Obj().Name()+".VerifySyncInfo: a plain quorum certificate can determine the verified view", p.FuncPos(fn),
+			"some accepting exit returns the view of the (verified) QC carried by the sync info",
+			"the QC carried by a sync info is ignored: a certified proposal or a new-view message with a QC never advances the view, views advance by timeouts only (in a fault-free synchronous run nothing is ever committed)")
+	}
+
 	// C05.4 / C05.5 imported
 	c.importFrom(checkC08, "C05.4", "C08.5")
 	c.importFrom(checkC08, "C05.5", "C08.3")
